@@ -3086,6 +3086,12 @@ class Wallet(object):
                 })
 
         if not key_id:
+            for b in self._balances:
+                if (account_id is None or b['account_id'] == account_id) and \
+                        (network is None or b['network'] == network) and \
+                        not [bl for bl in balance_list if bl['network'] == b['network'] and
+                             bl['account_id'] == b['account_id']]:
+                    b['balance'] = 0
             for bl in balance_list:
                 bl_item = [b for b in self._balances if
                            b['network'] == bl['network'] and b['account_id'] == bl['account_id']]
